@@ -1,6 +1,7 @@
 package c11
 
 import (
+	"os"
 	"bytes"
 	"encoding/json"
 	"fmt"
@@ -252,6 +253,9 @@ func (h *hist) register(d *dgram) {
 		// Must be accepted only if it fits next to everything that may be
 		// queued; a buffer filled exactly to its limit is full.
 		d.opt = !(hi+len(d.data) <= rcvBuf && hi < rcvBuf)
+		if os.Getenv("C11_DBG") != "" {
+			fmt.Printf("arrive #%d %v:%d len=%d to port %d: model hi=%d opt=%v qlen=%d\n", d.serial, d.src, d.sport, len(d.data), rcv.port, hi, !(hi+len(d.data) <= rcvBuf && hi < rcvBuf), len(rcv.q))
+		}
 		if d.opt {
 			h.pressure = true
 			evid.Label("inj:under-pressure")
@@ -291,16 +295,16 @@ func (h *hist) read(s *msock) (done bool, f *evid.Failure) {
 	for i, d := range s.q {
 		if bytes.Equal(got, d.data) && sameSource(s.cfg.Net, from, d) {
 			if d.opt {
-				// d may have been dropped, and what was returned may be a later arrival that
-				// Read cannot tell from it (same bytes, same sender): if only optional arrivals
-				// lie between the two, that one is no longer certain to be still queued
+				// d may have been dropped, and what was returned may be any later arrival that
+				// Read cannot tell from it (same bytes, same sender) as long as only optional
+				// arrivals lie in between: none of those is certain to be still queued
 				for _, x := range s.q[i+1:] {
 					if bytes.Equal(x.data, d.data) && bytes.Equal(x.src, d.src) && x.sport == d.sport && x.fam == d.fam {
 						if !x.opt {
 							x.opt = true
 							evid.Label("read:indistinguishable-twin-made-optional")
 						}
-						break
+						continue
 					}
 					if !x.opt {
 						break
